@@ -33,7 +33,7 @@ RULE = (
 )
 ASSUMPTIONS = ["bodies whose value is needed to choose a branch (dispatch, bind source, case dispatch, Map iterables) count as needed"]
 FLOORS = {"constructions_checked": (1500, 30000), "evaluations_checked": (4000, 80000), "skipped_bodies_confirmed": (1500, 30000),
-          "windows_checked": (2000, 20000), "apply_order_checked": (100, 1000), "definition_time_checks": (60, 600), "namespace_default_runs_at_evaluation": (60, 600), "late_dispatch_evaluations": (400, 4000), "selected_step_orders": (100, 1000)}
+          "windows_checked": (2000, 20000), "apply_order_checked": (100, 1000), "definition_time_checks": (60, 600), "namespace_default_runs_at_evaluation": (60, 600), "late_dispatch_evaluations": (400, 4000), "selected_step_orders": (100, 1000), "selected_branch_failures": (300, 3000)}
 SHARDS_QUICK = 4
 
 
@@ -389,6 +389,53 @@ def apply_order(ctx, r):
         ctx.violation("apply-order", f">> ran {order}, expected source before parameters before step: {expected}", {"program": program, "options": o})
 
 
+def selected_branch_fails(ctx, r, case):
+    """The dispatch selects a registered branch and that branch FAILS (its body raises, or it needs an absent option):
+    the evaluation fails - the default is an unselected alternative and its body never runs."""
+    from labrea import switch
+
+    log = Log()
+
+    def mk(name, raises=False, needs=None):
+        def f(a=Option(needs or "A", 0) if needs is None else Option(needs)):
+            log.hit("body", name)
+            if raises:
+                raise ValueError(f"{name} fails")
+            return name
+
+        f.__name__ = name
+        return f
+
+    how = r.choice(["switch", "overload", "interface", "switch-of-options"])
+    failure = r.choice(["raises", "missing-option"])
+    cache = r.choice([dataset, dataset.nocache])
+    fast = cache(mk("fast", raises=failure == "raises", needs=None if failure == "raises" else "NEEDED"))
+    dflt = cache(mk("default"))
+    if how == "switch":
+        expr = switch(Option("D"), {"fast": fast}, dflt)
+    elif how == "switch-of-options":
+        expr = switch(Option("D"), {"fast": Option("NEEDED") if failure == "missing-option" else fast}, dflt)
+    elif how == "overload":
+        expr = cache(mk("default"), dispatch="D")
+        expr.register("fast", fast)
+    else:
+        Iface = interface("D")(type("FailIface", (), {"member": dflt}))
+        Iface.implementation("fast")(type("FailImpl", (), {"member": fast}))
+        expr = Iface.member
+    for o in ({"D": "fast", "A": 1}, {"D": "other", "A": 1}, {"D": "fast", "A": 2}):
+        mark = log.mark()
+        got = observe(expr.evaluate, dict(o))
+        ran = [e[2] for e in log.since(mark, ("body",))]
+        ctx.evaluations += 1
+        ctx.count("selected_branch_failures")
+        selected = o["D"] == "fast"
+        if (selected and (got[0] != "err" or "default" in ran)) or (not selected and got != ("ok", ("s", "default"))):
+            ctx.violation("unselected-alternative-ran", f"{how}, selected branch {failure}: with {o} bodies {ran} ran and the outcome is {short(got)} "
+                          f"(a selected branch that fails must fail the evaluation; the default is not selected)", {"family": "selected-branch-fails", "case": case, "shard": ctx.shard, "shards": ctx.shards})
+            return
+    ctx.nontrivial(spec_hash(["selected-branch-fails", how, failure, case]))
+
+
 def selected_step_order(ctx, r, case):
     """`source >> step` where the step itself is chosen by a dataset (switch / case / bind on a dataset), also as a
     dataset callback: the source is produced first, the selecting dataset afterwards, and when the source fails the
@@ -446,6 +493,7 @@ def run(ctx):
         apply_order(ctx, case_rng(ctx, 777_000 + i))
         late_dispatch(ctx, case_rng(ctx, ("late", i)), i)
         selected_step_order(ctx, case_rng(ctx, ("selstep", i)), i)
+        selected_branch_fails(ctx, case_rng(ctx, ("selfail", i)), i)
     for i, p in enumerate(directed.programs()):
         if i % ctx.shards != ctx.shard:
             continue
@@ -466,7 +514,10 @@ def run(ctx):
 
 def replay(ctx, rep):
     w = rep["witness"]
-    if w.get("family") == "selected-step":
+    if w.get("family") == "selected-branch-fails":
+        ctx.shard, ctx.shards = w.get("shard", 0), w.get("shards", 1)
+        selected_branch_fails(ctx, case_rng(ctx, ("selfail", w["case"])), w["case"])
+    elif w.get("family") == "selected-step":
         ctx.shard, ctx.shards = w.get("shard", 0), w.get("shards", 1)
         selected_step_order(ctx, case_rng(ctx, ("selstep", w["case"])), w["case"])
     elif w.get("family") == "late-dispatch":
